@@ -278,6 +278,7 @@ class Engine:
             ks = [fresh(v + '!sk', z3.IntSort()) for v in goal.vars]
             hy = list(st.pc) + [goal.range_cond(*ks)]
             g = goal.fn(*ks)
+            hy += list(getattr(goal.fn, 'extras', None) or [])
             skolems = tuple(skolems) + tuple(ks)
             hyps = hy
         else:
@@ -777,7 +778,7 @@ class Engine:
         f = self.uf('spec_' + n, *(sorts + [rs]))
         r = f(*a)
         # one unfolding at the call site
-        if sf.body is not None and self.depth < 3:
+        if sf.body is not None and self.depth < 5:
             self.depth += 1
             bound = {}
             for (t, pn), v in zip(sf.params, args): bound[pn] = v
@@ -898,7 +899,11 @@ class Engine:
                 def fn(*ks, inner=inner, st=st, bound=bound, names=names):
                     b2 = dict(bound or {})
                     for n_, k in zip(names, ks): b2[n_] = k
-                    return self.sv(inner, st.clone(), b2)
+                    s2 = st.clone(); n0 = len(s2.pc)
+                    v = self.sv(inner, s2, b2)
+                    fn.extras = [h for h in s2.pc[n0:] if not isinstance(h, Quant)]
+                    return v
+                fn.extras = []
                 out.append(Quant.multi(names, rangefn, fn, SP.show(c), guard))
             else:
                 out.append(self.sv(c, st_live, bound))
